@@ -297,10 +297,14 @@ struct hs_ind : basic_policy<hs_ind, id_rtti, checked_perfect_hash<hs_ind>, vptr
 struct hs_ind2 : basic_policy<hs_ind2, id_rtti, checked_perfect_hash<hs_ind2>, vptr_vector<hs_ind2>, basic_indirect_vptr<hs_ind2>, vectored_error<hs_ind2>> {};
 
 // model class handed to publish_vptrs
+// (it has what the two kinds of object the library passes to publish_vptrs -
+// the compiler's class_ and the catalog's class_info - have in common)
 struct HClass {
     std::vector<y2::type_id> ids;
     std::uintptr_t* vp;   // this class's "v-table pointer"
     std::uintptr_t** svp; // address of its "static v-table pointer"
+    std::uintptr_t** static_vptr = nullptr;
+    bool is_abstract = false; // registered abstract classes are hashed too
     auto type_id_begin() const {
         return ids.begin();
     }
@@ -583,6 +587,11 @@ MiniOutcome hash_run_t(const J& c) {
             svp[k] = &vt[k];
             hc.vp = &vt[k];
             hc.svp = &svp[k];
+            hc.static_vptr = &svp[k];
+            // one class in six is abstract (a pure function of its ids, so
+            // that a case replays without a format change)
+            hc.is_abstract = !hc.ids.empty() &&
+                mix3(hc.ids[0], 0xAB57, hc.ids.size()) % 6 == 0;
             for (auto id : hc.ids)
                 all.push_back(id);
             classes.push_back(hc);
